@@ -19,6 +19,9 @@ func init() {
 func checkC18(p *load.Program, r *kit.Report) {
 	importRules(p, r, "C09", "the height reported for a verified proof is the label stored for the header's hash", 11, nil, "HEIGHT-LABEL")
 	importRules(p, r, "C08", "CheckHeader treats every entry of the hash→height map as a known header: a refused header must leave no entry", 12, nil, "NO-EFFECT-BEFORE-ERROR")
+	importRules(p, r, "C11", "a header the repository does not know must make the proof fail: load must not register the hashes of side branches it drops, or their headers verify as pruned history", 1,
+		func(o *kit.Obligation) bool { return strings.HasPrefix(o.Construct, "load/heights-only") }, "ORDER")
+	importRules(p, r, "C01", "`on the current best chain` is relative to repo.longest: Longest() must pick the branch with the most accumulated work", 1, nil, "ARGMAX")
 	r.NotDecided = "that the lookups answer truthfully for every history (C09); the merkle path arithmetic inside the dependency (CalculateRoot); proof corruption cases as values."
 	r.Rule("GUARD-DOM", "VerifyMerkleProof returns success only behind (a) the nil-error edge of CheckHeader(hash of the header the proof carries) or of GetHeader(*proof.BlockHash), and (b) the nil-error edge of proof.Verify(); neither-arm returns an error", 3)
 	r.Rule("ORDER", "on the hash-only arm the repository's header is installed into proof.BlockHeader before Verify(); Verify() is never called before the lookup", 2)
@@ -214,6 +217,9 @@ func checkC19(p *load.Program, r *kit.Report) {
 	importRules(p, r, "C17", "locators are built from repo.longest: after MarkHeaderInvalid removed branches the tip must be re-selected, or the locator names removed headers", 1,
 		func(o *kit.Obligation) bool { return strings.Contains(o.Construct, "reselect-after-trim") }, "MUST-PASS")
 	importRules(p, r, "C10", "a locator names the base of every tracked side branch: pruning must keep the headers side branches fork from", 1, nil, "COVER-ALL")
+	importRules(p, r, "C01", "best-chain locator hashes are read from repo.longest: after a restart load must select the most-work branch (the branch index lists a displaced branch first until the next consolidation), or the locator walks the displaced chain", 1,
+		func(o *kit.Obligation) bool { return strings.Contains(o.Construct, "Repository.load") }, "WRITERS")
+	importRules(p, r, "C09", "a peer's reply connects only if ProcessHeader finds its previous hash in the branch that really holds it: Find answers from each branch's own heightsMap, which two branches must never share", 3, nil, "FRESH-MAP")
 	r.NotDecided = "that a protocol-conformant peer's reply connects to a header we hold (needs a peer model); whether sorting by height makes every duplicate adjacent; locator contents for a given history."
 	r.Rule("PROVENANCE", "every hash placed in a locator is AtHeight(h).Hash / Last().Hash of the branch, a split's BeforeHash, or AtHeight(PrunedLowestHeight()).Hash of a branch other than the best one", 5)
 	r.Rule("START-SHAPE", "the best-chain walk starts at Height()-1 (genesis alone at height 0), steps down by a positive, doubling delta, and tests len(result) >= max after every best-chain hash", 2)
